@@ -173,6 +173,30 @@ theorem ofProto_spec (secret : List Nat) (a : Algo) (step n : Nat) (t : Totp) :
     simp only at h1 h2 h3
     rw [h1, h2, h3]
 
+/-- A token read from the stored form keeps key, step and algorithm (the one `to_dbtotpv1`
+wrote) and gets the stored digit count, six when the field is absent. -/
+theorem ofDb_spec (key : List Nat) (a : Algo) (step : Nat) (n : Option Nat) (t : Totp) :
+    ofDb key (Algo.toDb a) step n = some t ↔
+      (t.secret = key ∧ t.step = step ∧ t.algo = a ∧ t.digits.count = n.getD 6) := by
+  have ha : Algo.ofDb (Algo.toDb a) = a := by cases a <;> rfl
+  have hd : dbDefaultDigits = 6 := rfl
+  unfold ofDb
+  rw [hd]
+  constructor
+  · intro h
+    cases hd : Digits.ofU8 (n.getD 6) with
+    | none => rw [hd] at h; cases h
+    | some d' =>
+      rw [hd] at h
+      have ht := Option.some.inj h
+      subst ht
+      exact ⟨rfl, rfl, ha, (digits_of_u8 _ d').mp hd⟩
+  · rintro ⟨h1, h2, h3, h4⟩
+    rw [(digits_of_u8 _ t.digits).mpr h4, ha]
+    obtain ⟨s, st, al, d⟩ := t
+    simp only at h1 h2 h3
+    rw [h1, h2, h3]
+
 /-- The stored (`DbTotpV1`) and wire (`ProtoTotp`) forms name the same algorithm in both
 directions, and a stored token without a digit count has six digits. -/
 theorem conversions_keep_algo (a : Algo) :
